@@ -97,7 +97,13 @@ func genImportCase(r *rand.Rand) (files map[string]string, expected string, shar
 		sb.WriteString(fmt.Sprintf("func Bump%d() {\n\tCount%d = Count%d + 1\n}\nfunc Read%d() int {\n\treturn Count%d\n}\n", i, i, i, i, i))
 		sb.WriteString(fmt.Sprintf("func Unused%d() string {\n\treturn \"never\"\n}\n", i))
 		if m.topStmt {
-			sb.WriteString(fmt.Sprintf("print(\"init\", %d)\n", i))
+			// load-time code: a function reachable from nowhere else, state changes in imported modules
+			sb.WriteString(fmt.Sprintf("func setup%d() {\n\tprint(\"init\", %d)\n}\nsetup%d()\n", i, i, i))
+			for k, j := range m.imports {
+				if k == 0 || m.imports[k-1] != j {
+					sb.WriteString(fmt.Sprintf("%s.Bump%d()\n", m.aliases[k], j))
+				}
+			}
 			feats = append(feats, "top-level-statement")
 		}
 		files[names[i]] = sb.String()
@@ -105,6 +111,7 @@ func genImportCase(r *rand.Rand) (files map[string]string, expected string, shar
 	// expected init order: depth-first in import order, each module once
 	var out []string
 	done := map[int]bool{}
+	counts := make([]int, n)
 	var visit func(i int)
 	visit = func(i int) {
 		for _, j := range mods[i].imports {
@@ -113,6 +120,11 @@ func genImportCase(r *rand.Rand) (files map[string]string, expected string, shar
 				visit(j)
 				if mods[j].topStmt {
 					out = append(out, fmt.Sprintf("init %d", j))
+					for k, jj := range mods[j].imports {
+						if k == 0 || mods[j].imports[k-1] != jj {
+							counts[jj]++
+						}
+					}
 				}
 			}
 		}
@@ -134,7 +146,6 @@ func genImportCase(r *rand.Rand) (files map[string]string, expected string, shar
 	mb.WriteString("func localfn() int {\n\treturn 7\n}\n")
 	mb.WriteString("print(\"main\", localfn())\n")
 	out = append(out, "main 7")
-	counts := make([]int, n)
 	for k, j := range m.imports {
 		a := m.aliases[k]
 		mb.WriteString(fmt.Sprintf("print(%s.Get%d())\n", a, j))
